@@ -38,6 +38,7 @@ func main() {
 	commands["apicases"] = cmdAPICases
 	commands["asm"] = cmdAsm
 	commands["lx"] = cmdLX
+	commands["probe88"] = cmdProbe88
 	commands["cli"] = cmdCLI
 	commands["cli-replay"] = cmdCLIReplay
 	commands["loadrt"] = cmdLoadRT
